@@ -212,16 +212,16 @@ CLAIMED["C09"] = plan_C09
 # ------------------------------------------------------------------------------------------------
 # C08
 
-C08_KINDS = ["Normal", "Break", "Continue", "Return", "ReturnValue", "Bind", "BindRecv", "Delay", "Combine", "For", "While", "Loop"]
+C08_KINDS = ["Normal", "Break", "Continue", "Return", "ReturnValue", "Bind", "BindRecv", "Delay", "Combine", "For", "While", "Loop", "Breakable", "Continuable"]
 
 
 def plan_C08(ctx):
     budget, depth, nops, nconds = ctx.q((4, 3, 4, 4), (5, 4, 5, 5))
     lines = ["package c08", ""]
     n = 0
-    for k in range(5, 12):  # composite roots; leaf roots are covered as sub-terms and by one driver
+    for k in range(5, len(C08_KINDS)):  # composite roots; leaf roots are covered as sub-terms and by one driver
         if ctx.thorough:
-            for k2 in range(12):
+            for k2 in range(len(C08_KINDS)):
                 if C08_KINDS[k] == "Loop" and C08_KINDS[k2] in ("Normal", "Continue", "For", "While", "Loop"):
                     continue  # Loop(x) with a body that can never leave or yield diverges in any semantics: excluded by Assume(terminates), the shard would be vacuous
                 lines.append("func Drive_%s_%s() { Drive(%d, %d, %d, %d, %d, %d) }" % (C08_KINDS[k], C08_KINDS[k2], k, budget, depth, nops, nconds, k2))
@@ -429,6 +429,14 @@ def directed_c01():
         D.append(("guard_%s_two_elseifs_then_rest" % jn, [("for", ("decl", "i", "0"), "i < n", ("inc", "i"), [Y("i + 1"), ("if", "i == 1", [jump], [("if", "g1", [E(1)], [("if", "g2", [Y("i + 100"), E(3)], None)])]), E(2), Y("i + 200")]), Y("a + 3")]))
         D.append(("guard_%s_elseif_in_block" % jn, [("for", ("decl", "i", "0"), "i < n", ("inc", "i"), [("block", [("if", "g1", [Y("i + 1"), jump], [("if", "g2", [Y("i + 100")], None)]), Y("i + 200")]), E(2)]), Y("a + 3")]))
     D.append(("guard_return_elseif_yields_then_rest", [Y("a + 1"), ("if", "g1", [E(1), ("return",)], [("if", "g2", [Y("b + 100")], None)]), Y("a + 200"), E(2)]))
+    D.append(("continue_in_if_yield_post", [("decl", "i", "0"), ("for", None, "i < n", ("yield", "i + 100"), [("inc", "i"), Y("i + 1"), ("if", "g1", [E(1), ("continue",)], [Y("i + 2")]), E(2)]), Y("a")]))
+    D.append(("continue_in_switch_yield_post", [("decl", "i", "0"), ("for", None, "i < n", ("yield", "i + 100"), [("inc", "i"), ("switch", None, "i & 1", [("0", [Y("i + 1"), ("continue",)]), ("1", [E(1)])], None), Y("i + 2")]), Y("a")]))
+    D.append(("continue_trivial_body_yield_post", [("decl", "i", "0"), ("decl", "t", "0"), ("for", None, "i < n", ("yield", "t + 100"), [("inc", "i"), ("if", "g1", [("continue",)], None), ("assign", "t", "t + i")]), Y("t")]))
+    D.append(("continue_nested_loops_yield_post", [("decl", "i", "0"), ("for", None, "i < n", ("yield", "i + 100"), [("inc", "i"), ("for", ("decl", "j", "0"), "j < 2", ("inc", "j"), [("if", "g1", [("continue",)], None), Y("i*10 + j")]), ("if", "g2", [("continue",)], None), Y("i + 50")]), Y("a")]))
+    D.append(("break_and_continue_yield_post", [("decl", "i", "0"), ("for", None, "i < n + 2", ("yieldfrom", "H2(i)"), [("inc", "i"), ("if", "i == 2", [("continue",)], None), ("if", "i > 3", [("break",)], None), Y("i + 1")]), Y("a")]))
+    D.append(("switch_break_in_nested_if_then_rest", [("for", ("decl", "i", "0"), "i < n", ("inc", "i"), [("switch", None, "i & 1", [("0", [("if", "g1", [Y("i + 1")], [("break",)]), Y("i + 2")])], [Y("i + 3")]), Y("i + 4")]), Y("a")]))
+    D.append(("switch_break_in_block_after_yield", [("switch", None, "a & 1", [("0", [("block", [Y("a + 1"), ("if", "g1", [("break",)], None), E(1)]), Y("a + 2")])], None), Y("b")]))
+    D.append(("tswitch_break_after_yield", [("raw", "var t any = a"), ("for", ("decl", "i", "0"), "i < n", ("inc", "i"), [("tswitch", "v", "t", [("int", [Y("v + i"), ("if", "g1", [("break",)], None), Y("v + 1")])], None), Y("i + 2")]), Y("b")]))
     D.append(("tagless_switch_in_loop_with_continue", [("for", ("decl", "i", "0"), "i < n", ("inc", "i"), [("switch", None, None, [("i == 0", [Y("a + 1")]), ("i > 1", [Y("i + 2"), ("continue",)])], [E(1)]), Y("i + 100")]), Y("b")]))
     D.append(("tagless_switch_with_init_last_in_loop", [("for", ("decl", "i", "0"), "i < n", ("inc", "i"), [("switch", ("decl", "x", "i + a"), None, [("x > b", [Y("x + 1")]), ("g1", [E(1)])], None)]), Y("b")]))
     D.append(("for_without_condition", [("for", ("decl", "i", "0"), None, ("inc", "i"), [("if", "i >= n", [("break",)], None), Y("i + 1"), ("if", "g1", [("continue",)], None), E(1)]), Y("a")]))
@@ -750,8 +758,6 @@ def plan_C18(ctx):
             bodies.append(gen.concretize(lst, ctr, []))
         bodies += gen.sampled(rng, ctx.q(400, 1600), 10)
         for name, body in directed_c01():
-            if name in ("sw_break_after_yield", "continue_yield_post", "continue_yieldfrom_post", "tagless_switch", "yielding_switch_ends_loop"):
-                continue
             bodies.append(body)
         for body in bodies:
             import copy
@@ -1154,8 +1160,6 @@ def plan_C12(ctx):
         for lst in exh[:ctx.q(4, 40)]:
             hosts.append(gen.concretize(lst, gen.Ctr(), []))
         hosts += gen.sampled(rng, ctx.q(3, 60), 8)
-        # hosts that carry a known-defect shape are C01's subject, not C12's
-        hosts = [h for h in hosts if not (gen.tags_of(h) & {"break-in-yielding-switch-after-yield", "continue+yielding-post"})]
         n = 0
         for name, inj in gen.c12_injections():
             for hi, host in enumerate(hosts if not name.startswith("ctl_") else hosts[:4]):
@@ -1191,8 +1195,6 @@ def plan_C14(ctx):
         n = 0
         bodies = []
         for name, body in directed_c01():
-            if name in ("sw_break_after_yield", "continue_yield_post", "continue_yieldfrom_post", "tagless_switch", "yielding_switch_ends_loop", "case_ends_if"):
-                continue
             bodies.append((body, C01_HELPERS if "H2(" in repr(body) else ""))
         for name, body in directed_c05():
             bodies.append((body, gen.C05_HELPERS))
@@ -1223,8 +1225,6 @@ def plan_C14(ctx):
             bodies.append((body, ""))
         for body, helpers in bodies:
             p = gen.Program("i%04d" % n, body, helpers=helpers, named_result=(n % 2 == 0), family="il")
-            if p.tags & {"break-in-yielding-switch-after-yield", "continue+yielding-post"}:
-                continue
             if "map[" in repr(body):
                 map_pids.append(p.pid)
             makers = ["%s(a, b, n, g1, g2, g3)" % p.name, "%s(a, b, n, g1, g2, g3)" % p.name, "%s(b, a, n, !g1, g2, g3)" % p.name][:k]
